@@ -2,6 +2,7 @@ package sim
 
 import (
 	"fmt"
+	"sort"
 	"strings"
 
 	"github.com/massnetorg/mass-core/massutil"
@@ -529,8 +530,106 @@ func runC17Race(w *World, p map[string]int) {
 	if !quiesceAll(w, "C17", 60000) {
 		return
 	}
+	// signing while key-material requests arrive: a multi-input signing request
+	// is parked between two of its database reads (after it has unlocked the
+	// keystore for an earlier input) and reveal / export / passphrase check
+	// run to completion inside it
+	if param(p, "mode", 0) == 1 && t.Bool(35) {
+		signingWithKeyRequests(w, inst, t)
+		if len(w.Violations) > 0 {
+			return
+		}
+	}
 	w.Stat("check.c17_concurrent_run")
 	w.Sample = fmt.Sprintf("C17 race-mode rounds=%d height=%d race-detector=%v", rounds, w.Node.Tip().Height, raceBuild)
+}
+
+// signingWithKeyRequests: see the call site.
+//
+//go:norace
+func signingWithKeyRequests(w *World, inst *Instance, t *Tape) {
+	// (the fuzzed requests before may have created, imported or removed
+	// wallets: only wallets the harness set up itself and that still answer)
+	var ids []string
+	for _, id := range liveWallets(inst) {
+		if inst.Wallets[id].HD != nil && len(inst.Wallets[id].Issued) > 0 {
+			ids = append(ids, id)
+		}
+	}
+	if len(ids) == 0 || !w.AllDelivered() {
+		return
+	}
+	ws := inst.Wallets[ids[t.Int(len(ids))]]
+	if _, err := inst.Use(ws.ID, true); err != nil {
+		return
+	}
+	own, _, _ := w.owned(ws)
+	l := ComputeLedger(w.Node.BestChain(), own)
+	var pool []*Coin
+	for _, c := range l.Coins {
+		if c.Class == ClassStd && !c.Coinbase && c.SpendableAt(l.Tip) && c.Amount >= 200000 {
+			pool = append(pool, c)
+		}
+	}
+	sort.Slice(pool, func(i, j int) bool { return pool[i].Op.String() < pool[j].Op.String() })
+	if len(pool) < 2 {
+		return
+	}
+	if len(pool) > 4 {
+		pool = pool[:4]
+	}
+	tx := wire.NewMsgTx()
+	var sum int64
+	for _, c := range pool {
+		op := c.Op
+		tx.AddTxIn(wire.NewTxIn(&op, nil))
+		sum += c.Amount
+	}
+	tx.AddTxOut(wire.NewTxOut(sum-100000, stdScript(pool[0].Holder)))
+	var signErr error
+	g := inst.Call(RoleClient, "SignRawTx(multi-input)", func() { _, signErr = inst.WM.SignRawTx([]byte(ws.Pass), "ALL", tx) })
+	g.gateReads = true
+	at := 2 + t.Int(8) // the how-manieth park between reads the other requests arrive at
+	parks := 0
+	done := false
+	for i := 0; i < stepBudget && !g.done; i++ {
+		if !done && strings.HasPrefix(g.parked, "db.read") {
+			parks++
+			if parks == at {
+				done = true
+				for k, n := 0, 1+t.Int(3); k < n; k++ {
+					var g2 *G
+					switch t.Int(3) {
+					case 0:
+						g2 = inst.Call(RoleClient, "GetMnemonic(inside signing)", func() { inst.WM.GetMnemonic(ws.ID, ws.Pass) })
+					case 1:
+						g2 = inst.Call(RoleClient, "ExportWallet(inside signing)", func() { inst.WM.ExportWallet(ws.ID, ws.Pass) })
+					default:
+						g2 = inst.Call(RoleClient, "CheckPrivPassphrase(inside signing)", func() {
+							inst.WM.SimKeystoreManager().CheckPrivPassphrase(ws.ID, []byte("wrongPass77"))
+						})
+					}
+					if !w.S.RunSolo(g2, stepBudget) {
+						w.Violate("C17.stall", "key-material request inside a signing request did not return: %v", w.S.ParkedSummary())
+						return
+					}
+				}
+				w.Stat("probe.key_requests_inside_signing")
+			}
+		}
+		if !w.S.SoloStep(g) {
+			break
+		}
+	}
+	if !g.done {
+		w.Violate("C17.stall", "multi-input signing did not return: %v", w.S.ParkedSummary())
+		return
+	}
+	if signErr != nil {
+		// refused although passphrase and inputs are right: what the other
+		// requests did to the keystore got in its way
+		w.Violate("C17.sign-disturbed", "SignRawTx over %d own coins with the right passphrase failed while reveal/export/check requests ran inside it: %v", len(pool), signErr)
+	}
 }
 
 // runC17Probe (params mode=2) is a fixed scenario used to test the race mode
